@@ -19,13 +19,16 @@ C10WorldsFull == {[fs0 |-> a, force |-> b, fault |-> c, missing |-> m] :
 \* Frame over the module files: an untidy-but-resolvable module, output paths absent or occupied, with and without force
 C10UntidyWorlds == {[fs0 |-> a, force |-> b, fault |-> InputFault("untidy-module", "pkg", p, "among", ft), missing |-> FALSE] :
                       a \in [FileSet -> {"absent", "user"}], b \in {NoForce, AllForce}, p \in {"first", "last"}, ft \in UntidyFeatures}
+\* a file appears at an output path during the run (see OldValue)
+C10AppearWorlds == {[fs0 |-> a, force |-> b, fault |-> NoFault, missing |-> FALSE] :
+                      a \in [FileSet -> {"absent", "appears"}] \ {AllAbsent}, b \in {NoForce, AllForce}}
 C10WorldsQuick == {x \in C10WorldsFull : x.missing => \/ x.fault = NoFault
                                                          \/ (x.fault.kind = "stage" /\ x.fault.at \in {"format", "write"})}
-                  \cup C10UntidyWorlds
+                  \cup C10UntidyWorlds \cup C10AppearWorlds
 \* quick model check: "gen" and "user" content are the same thing to the model (the difference only exists for the
 \* real code, and the case export keeps both)
 C10WorldsMCQuick == {x \in C10WorldsQuick : \A f \in FileSet : x.fs0[f] # "gen"}
-C10WorldsThorough == C10WorldsFull \cup C10UntidyWorlds
+C10WorldsThorough == C10WorldsFull \cup C10UntidyWorlds \cup C10AppearWorlds
 
 \* C09: every invalid-input class x every level it can be written at x first/last package x alone/among valid
 \* ones, plus the fault-free world
@@ -38,6 +41,10 @@ C09Worlds == {[fs0 |-> AllAbsent, force |-> NoForce, fault |-> NoFault, missing 
                        c \in {"conflict-srcpkg", "conflict-pkgname", "conflict-template"}}
              \cup {[fs0 |-> AllAbsent, force |-> NoForce, fault |-> InputFault("untidy-module", "pkg", p, x, ft), missing |-> FALSE] :
                        p \in {"first", "last"}, x \in {"alone", "among"}, ft \in UntidyFeatures}
+             \* schema-rejected data in ONE file whose custom template + schema the other files use too, with other per-file
+             \* parameters (not required, conforming data): run-global state must not carry one file's parameters to another
+             \cup {[fs0 |-> AllAbsent, force |-> NoForce, fault |-> InputFault("schema-data", l, p, "among", "shared-template-mixed-require"), missing |-> FALSE] :
+                       l \in {"pkg", "iface", "entry"}, p \in {"first", "last"}}
              \* COMBINATIONS: a package that fails to load which also has an unusual-but-valid trait
              \cup {[fs0 |-> AllAbsent, force |-> NoForce, fault |-> InputFault(c, "pkg", "first", x, ft), missing |-> FALSE] :
                        c \in PkgErrClasses, x \in {"alone", "among"}, ft \in PkgFeatures}
